@@ -2,6 +2,10 @@
 """Print the markdown table of independent seeded changes (seeded/<id>/meta.json) for DESIGN.md 0.6."""
 import json, os, re
 root = os.path.join(os.path.dirname(os.path.dirname(os.path.abspath(__file__))), "seeded")
+import sys, io
+_buf = io.StringIO()
+_out = sys.stdout
+sys.stdout = _buf
 print("| seed | site of the change | needs, to manifest | first run | now caught by |")
 print("|---|---|---|---|---|")
 for d in sorted(os.listdir(root)):
@@ -17,3 +21,13 @@ for d in sorted(os.listdir(root)):
     fc = ", ".join(first.get("caught_by") or []) or "missed"
     now = ", ".join(m.get("caught_by") or []) or "**missed**"
     print("| %s%s | %s | %s | %s | %s |" % (d, "" if m.get("confirmed") else " (not re-confirmed)", ", ".join("`%s`" % f.split("/")[-1] for f in files), needs, fc, now))
+
+sys.stdout = _out
+table = _buf.getvalue().strip()
+if "--update" in sys.argv:
+    dp = os.path.join(os.path.dirname(root), "DESIGN.md")
+    s = open(dp).read()
+    a, b = s.index("<!-- SEEDTABLE-BEGIN -->"), s.index("<!-- SEEDTABLE-END -->")
+    open(dp, "w").write(s[:a] + "<!-- SEEDTABLE-BEGIN -->\n" + table + "\n" + s[b:])
+else:
+    print(table)
